@@ -1,10 +1,10 @@
 import libcst as cst
 
-from codemodder.codemods.utils_mixin import AncestorPatternsMixin, NameResolutionMixin
+from codemodder.codemods.utils_mixin import NameResolutionMixin
 from core_codemods.api import Metadata, ReviewGuidance, SimpleCodemod
 
 
-class UseSetLiteral(SimpleCodemod, NameResolutionMixin, AncestorPatternsMixin):
+class UseSetLiteral(SimpleCodemod, NameResolutionMixin):
     metadata = Metadata(
         name="use-set-literal",
         summary="Use Set Literals Instead of Sets from Lists",
@@ -31,16 +31,24 @@ class UseSetLiteral(SimpleCodemod, NameResolutionMixin, AncestorPatternsMixin):
                             if len(elements) == 0:
                                 return updated_node.with_changes(args=[])
 
-                            if isinstance(
-                                self.get_parent(original_node),
-                                cst.FormattedStringExpression,
-                            ):
-                                # f"{{1, 2}}" would read as escaped braces
-                                return cst.Set(
-                                    elements=elements,
-                                    lpar=[cst.LeftParen()],
-                                    rpar=[cst.RightParen()],
-                                )
                             return cst.Set(elements=elements)
 
+        return updated_node
+
+    def leave_FormattedStringExpression(
+        self,
+        original_node: cst.FormattedStringExpression,
+        updated_node: cst.FormattedStringExpression,
+    ):
+        # `f"{{1, 2}}"` is an escaped brace, not a set: when the rewritten
+        # expression now starts with `{`, keep it apart from the field's brace
+        if (
+            not updated_node.expression.deep_equals(original_node.expression)
+            and self.code(updated_node.expression).startswith("{")
+            and not self.code(original_node.expression).startswith("{")
+            and updated_node.whitespace_before_expression.empty
+        ):
+            return updated_node.with_changes(
+                whitespace_before_expression=cst.SimpleWhitespace(" ")
+            )
         return updated_node
